@@ -219,7 +219,10 @@ def parse_strict(text: str):
         raise StrictError("frame", "group name differs from partition name")
     if toks[-1] != "@enduml" or toks[-2] != "}" or toks[-3] != "end group":
         raise StrictError("frame", f"tail {toks[-3:]!r}")
-    body = toks[3:-3]
+    # the labels of `switch (...)` / `case (...)` are free text: normalise
+    body = [re.sub(r"^switch\s*\(.*\)$", "switch (XOR)",
+                   re.sub(r"^case\s*\(.*\)$", 'case ("")', t))
+            for t in toks[3:-3]]
     for t in body:
         if t in ("@startuml", "@enduml", "}", "end group") or t.startswith(
             "partition "
